@@ -24,7 +24,7 @@ RQ_IMPL = r'impl<C> Requests<C> where C: Channel,'
 RQ_STREAM = r'impl<C> Stream for Requests<C> where C: Channel,'
 
 RULES = server_table.TABLE_RULES + [
-    Rule('R2:as-mut', r'self\.as_mut\(\)\.', 'self.', why='A-pin: re-borrow of the pinned self'),
+    Rule('R2:as-mut', r'self\s*\.as_mut\(\)\s*\.', 'self.', flags=re.M | re.S, why='A-pin: re-borrow of the pinned self'),
     Rule('R2:deref-project', r'\*self\.project\(\)\.', 'self.', why='A-pin: projection is field access'),
     Rule('R2:project', r'self\s*\.project\(\)\s*\.', 'self.', flags=re.M | re.S, why='A-pin: projection is field access'),
     Rule('R3:in_flight_requests_mut', r'self\s*\.in_flight_requests_mut\(\)', 'self.in_flight_requests', flags=re.M | re.S, why='accessor = projection'),
